@@ -1,15 +1,1729 @@
-//! Engine `sql` — not built yet (stub).
+//! Engine `sql` (C05, reused by C06): whole statements through the public `Database` API against the Lean
+//! reference evaluator.  The case syntax is documented in `lean/AxVerif/Driver/Sql.lean`.
+//!
+//! A case line carries a database (tables + rows) and a list of statements as prefix ASTs.  `exec` creates a
+//! fresh database in a temporary directory, loads the rows, prints every statement as SQL text with *minimal
+//! parentheses* under the documented precedence (so the real parser's precedence is exercised), runs it and
+//! prints the canonical outcome.
 use super::{Case, Engine, Tier};
 use crate::rng::Rng;
+use crate::util::{hex_or_dash, unhex};
+use axmosdb::{DBConfig, DataType, Database, runtime::QueryResult};
+use std::collections::BTreeSet;
 
 pub struct SqlEngine;
 
-impl Engine for SqlEngine {
-    fn gen_cases(&self, _rng: &mut Rng, _tier: Tier) -> Vec<Case> {
-        Vec::new()
+// ------------------------------------------------------------------------------------------------ AST
+
+#[derive(Clone, Debug, PartialEq)]
+pub enum Val {
+    Null,
+    Int(i128),
+    Bool(bool),
+    Text(Vec<u8>),
+    /// a double that is not an integer, by bit pattern
+    F64(u64),
+}
+
+#[derive(Clone, Copy, Debug, PartialEq, Eq)]
+pub enum Ty {
+    Int,
+    BigInt,
+    Bool,
+    Text,
+}
+
+#[derive(Clone, Debug)]
+pub struct Table {
+    pub tys: Vec<Ty>,
+    pub rows: Vec<Vec<Val>>,
+}
+
+#[derive(Clone, Debug, PartialEq)]
+pub enum E {
+    Lit(Val),
+    Col(usize),
+    Not(Box<E>),
+    Neg(Box<E>),
+    Pos(Box<E>),
+    And(Box<E>, Box<E>),
+    Or(Box<E>, Box<E>),
+    Cmp(&'static str, Box<E>, Box<E>),
+    Arith(&'static str, Box<E>, Box<E>),
+    Like(bool, Box<E>, Box<E>),
+    IsNull(bool, Box<E>),
+    Between(bool, Box<E>, Box<E>, Box<E>),
+    InList(bool, Box<E>, Vec<E>),
+}
+
+#[derive(Clone, Debug)]
+pub enum From {
+    Table(usize),
+    Join(&'static str, Box<From>, Box<From>, Option<E>),
+}
+
+#[derive(Clone, Debug)]
+pub struct Agg {
+    pub f: &'static str, // cnt* cnt sum avg min max
+    pub arg: Option<E>,
+}
+
+#[derive(Clone, Debug)]
+pub struct Select {
+    pub distinct: bool,
+    pub from: From,
+    pub where_: Option<E>,
+    pub group_by: Vec<E>,
+    pub aggs: Vec<Agg>,
+    pub items: Option<Vec<E>>,
+    pub order_by: Vec<(usize, bool)>,
+    pub limit: Option<u64>,
+    pub offset: Option<u64>,
+}
+
+#[derive(Clone, Debug)]
+pub enum Stmt {
+    Select(Select),
+    Insert(usize, Vec<Vec<E>>),
+    Update(usize, Vec<(usize, E)>, Option<E>),
+    Delete(usize, Option<E>),
+}
+
+// ------------------------------------------------------------------------------------------------ case text
+
+pub fn show_val(v: &Val) -> String {
+    match v {
+        Val::Null => "n".into(),
+        Val::Int(i) => format!("i{}", i),
+        Val::Bool(b) => if *b { "b1".into() } else { "b0".into() },
+        Val::Text(s) => format!("t{}", hex_or_dash(s)),
+        Val::F64(b) => format!("f{}", b),
     }
-    fn exec(&mut self, _line: &str) -> String {
-        "unimplemented".into()
+}
+
+fn val_of_word(w: &str) -> Option<Val> {
+    if w == "n" {
+        return Some(Val::Null);
+    }
+    if w == "b0" {
+        return Some(Val::Bool(false));
+    }
+    if w == "b1" {
+        return Some(Val::Bool(true));
+    }
+    if let Some(r) = w.strip_prefix('i') {
+        if r.starts_with('+') {
+            return None;
+        }
+        return r.parse::<i128>().ok().map(Val::Int);
+    }
+    if let Some(r) = w.strip_prefix('t') {
+        return unhex(r).map(Val::Text);
+    }
+    None
+}
+
+fn ty_char(t: Ty) -> char {
+    match t {
+        Ty::Int => 'I',
+        Ty::BigInt => 'B',
+        Ty::Bool => 'O',
+        Ty::Text => 'S',
+    }
+}
+
+pub fn show_db(db: &[Table]) -> String {
+    db.iter()
+        .map(|t| {
+            let tys: String = t.tys.iter().map(|t| ty_char(*t)).collect();
+            let rows: Vec<String> =
+                t.rows.iter().map(|r| r.iter().map(show_val).collect::<Vec<_>>().join(",")).collect();
+            format!("{}={}", tys, rows.join("|"))
+        })
+        .collect::<Vec<_>>()
+        .join("/")
+}
+
+fn parse_db(w: &str) -> Option<Vec<Table>> {
+    let mut db = Vec::new();
+    for tw in w.split('/') {
+        let (tys, rows) = tw.split_once('=')?;
+        if rows.contains('=') || tys.is_empty() {
+            return None;
+        }
+        let tys: Option<Vec<Ty>> = tys
+            .chars()
+            .map(|c| match c {
+                'I' => Some(Ty::Int),
+                'B' => Some(Ty::BigInt),
+                'O' => Some(Ty::Bool),
+                'S' => Some(Ty::Text),
+                _ => None,
+            })
+            .collect();
+        let tys = tys?;
+        let mut rs = Vec::new();
+        if !rows.is_empty() {
+            for r in rows.split('|') {
+                let vs: Option<Vec<Val>> = r.split(',').map(val_of_word).collect();
+                let vs = vs?;
+                if vs.len() != tys.len() || vs.iter().any(|v| matches!(v, Val::F64(_))) {
+                    return None;
+                }
+                rs.push(vs);
+            }
+        }
+        db.push(Table { tys, rows: rs });
+    }
+    Some(db)
+}
+
+pub fn show_expr(e: &E, out: &mut Vec<String>) {
+    match e {
+        E::Lit(v) => out.push(show_val(v)),
+        E::Col(i) => out.push(format!("c{}", i)),
+        E::Not(a) => {
+            out.push("not".into());
+            show_expr(a, out)
+        }
+        E::Neg(a) => {
+            out.push("neg".into());
+            show_expr(a, out)
+        }
+        E::Pos(a) => {
+            out.push("pos".into());
+            show_expr(a, out)
+        }
+        E::And(a, b) => {
+            out.push("and".into());
+            show_expr(a, out);
+            show_expr(b, out)
+        }
+        E::Or(a, b) => {
+            out.push("or".into());
+            show_expr(a, out);
+            show_expr(b, out)
+        }
+        E::Cmp(op, a, b) | E::Arith(op, a, b) => {
+            out.push(op.to_string());
+            show_expr(a, out);
+            show_expr(b, out)
+        }
+        E::Like(neg, a, b) => {
+            out.push(if *neg { "nlike" } else { "like" }.into());
+            show_expr(a, out);
+            show_expr(b, out)
+        }
+        E::IsNull(neg, a) => {
+            out.push(if *neg { "notnull" } else { "isnull" }.into());
+            show_expr(a, out)
+        }
+        E::Between(neg, a, b, c) => {
+            out.push(if *neg { "nbtw" } else { "btw" }.into());
+            show_expr(a, out);
+            show_expr(b, out);
+            show_expr(c, out)
+        }
+        E::InList(neg, a, xs) => {
+            out.push(format!("{}{}", if *neg { "nin" } else { "in" }, xs.len()));
+            show_expr(a, out);
+            for x in xs {
+                show_expr(x, out)
+            }
+        }
+    }
+}
+
+fn show_from(f: &From, out: &mut Vec<String>) {
+    match f {
+        From::Table(t) => out.push(format!("t{}", t)),
+        From::Join(k, l, r, on) => {
+            out.push("j".into());
+            out.push(k.to_string());
+            show_from(l, out);
+            show_from(r, out);
+            match on {
+                None => out.push("-".into()),
+                Some(e) => {
+                    out.push("on".into());
+                    show_expr(e, out)
+                }
+            }
+        }
+    }
+}
+
+fn show_where(w: &Option<E>, out: &mut Vec<String>) {
+    match w {
+        None => out.push("-".into()),
+        Some(e) => {
+            out.push("w".into());
+            show_expr(e, out)
+        }
+    }
+}
+
+pub fn show_stmt(s: &Stmt) -> String {
+    let mut out: Vec<String> = Vec::new();
+    match s {
+        Stmt::Select(q) => {
+            out.push("sel".into());
+            out.push(if q.distinct { "distinct" } else { "all" }.into());
+            show_from(&q.from, &mut out);
+            show_where(&q.where_, &mut out);
+            out.push(format!("g{}", q.group_by.len()));
+            for e in &q.group_by {
+                show_expr(e, &mut out)
+            }
+            out.push(format!("a{}", q.aggs.len()));
+            for a in &q.aggs {
+                out.push(a.f.to_string());
+                if let Some(e) = &a.arg {
+                    show_expr(e, &mut out)
+                }
+            }
+            match &q.items {
+                None => out.push("star".into()),
+                Some(es) => {
+                    out.push(format!("p{}", es.len()));
+                    for e in es {
+                        show_expr(e, &mut out)
+                    }
+                }
+            }
+            out.push(format!("o{}", q.order_by.len()));
+            for (p, asc) in &q.order_by {
+                out.push(format!("{}{}", if *asc { "a" } else { "d" }, p))
+            }
+            out.push(match q.limit {
+                Some(l) => format!("lim{}", l),
+                None => "lim-".into(),
+            });
+            out.push(match q.offset {
+                Some(l) => format!("off{}", l),
+                None => "off-".into(),
+            });
+        }
+        Stmt::Insert(t, rows) => {
+            out.push("ins".into());
+            out.push(format!("t{}", t));
+            out.push(format!("r{}", rows.len()));
+            for r in rows {
+                for e in r {
+                    show_expr(e, &mut out)
+                }
+            }
+        }
+        Stmt::Update(t, sets, w) => {
+            out.push("upd".into());
+            out.push(format!("t{}", t));
+            out.push(format!("s{}", sets.len()));
+            for (c, e) in sets {
+                out.push(format!("c{}", c));
+                show_expr(e, &mut out)
+            }
+            show_where(w, &mut out);
+        }
+        Stmt::Delete(t, w) => {
+            out.push("del".into());
+            out.push(format!("t{}", t));
+            show_where(w, &mut out);
+        }
+    }
+    out.join(" ")
+}
+
+struct Toks<'a> {
+    ws: Vec<&'a str>,
+    pos: usize,
+}
+
+impl<'a> Toks<'a> {
+    fn next(&mut self) -> Option<&'a str> {
+        let w = self.ws.get(self.pos).copied();
+        self.pos += 1;
+        w
+    }
+    fn done(&self) -> bool {
+        self.pos == self.ws.len()
+    }
+}
+
+fn num_after(pre: &str, w: &str) -> Option<usize> {
+    let r = w.strip_prefix(pre)?;
+    if r.is_empty() || !r.bytes().all(|b| b.is_ascii_digit()) {
+        return None;
+    }
+    r.parse().ok()
+}
+
+const CMP_OPS: [&str; 6] = ["eq", "ne", "lt", "le", "gt", "ge"];
+const ARITH_OPS: [&str; 5] = ["add", "sub", "mul", "div", "mod"];
+
+fn p_expr(t: &mut Toks) -> Option<E> {
+    let w = t.next()?;
+    if let Some(v) = val_of_word(w) {
+        if matches!(v, Val::F64(_)) {
+            return None;
+        }
+        return Some(E::Lit(v));
+    }
+    if let Some(k) = num_after("c", w) {
+        return Some(E::Col(k));
+    }
+    if let Some(op) = CMP_OPS.iter().find(|o| **o == w) {
+        let a = p_expr(t)?;
+        let b = p_expr(t)?;
+        return Some(E::Cmp(op, Box::new(a), Box::new(b)));
+    }
+    if let Some(op) = ARITH_OPS.iter().find(|o| **o == w) {
+        let a = p_expr(t)?;
+        let b = p_expr(t)?;
+        return Some(E::Arith(op, Box::new(a), Box::new(b)));
+    }
+    match w {
+        "not" => Some(E::Not(Box::new(p_expr(t)?))),
+        "neg" => Some(E::Neg(Box::new(p_expr(t)?))),
+        "pos" => Some(E::Pos(Box::new(p_expr(t)?))),
+        "and" => {
+            let a = p_expr(t)?;
+            let b = p_expr(t)?;
+            Some(E::And(Box::new(a), Box::new(b)))
+        }
+        "or" => {
+            let a = p_expr(t)?;
+            let b = p_expr(t)?;
+            Some(E::Or(Box::new(a), Box::new(b)))
+        }
+        "like" | "nlike" => {
+            let a = p_expr(t)?;
+            let b = p_expr(t)?;
+            Some(E::Like(w == "nlike", Box::new(a), Box::new(b)))
+        }
+        "isnull" | "notnull" => Some(E::IsNull(w == "notnull", Box::new(p_expr(t)?))),
+        "btw" | "nbtw" => {
+            let a = p_expr(t)?;
+            let b = p_expr(t)?;
+            let c = p_expr(t)?;
+            Some(E::Between(w == "nbtw", Box::new(a), Box::new(b), Box::new(c)))
+        }
+        _ => {
+            let (neg, k) = if let Some(k) = num_after("nin", w) {
+                (true, k)
+            } else if let Some(k) = num_after("in", w) {
+                (false, k)
+            } else {
+                return None;
+            };
+            let a = p_expr(t)?;
+            let mut xs = Vec::new();
+            for _ in 0..k {
+                xs.push(p_expr(t)?);
+            }
+            Some(E::InList(neg, Box::new(a), xs))
+        }
+    }
+}
+
+fn p_from(t: &mut Toks) -> Option<From> {
+    let w = t.next()?;
+    if w == "j" {
+        let k = t.next()?;
+        let k = ["inner", "left", "right", "full", "cross"].iter().find(|x| **x == k)?;
+        let l = p_from(t)?;
+        let r = p_from(t)?;
+        let on = match t.next()? {
+            "-" => None,
+            "on" => Some(p_expr(t)?),
+            _ => return None,
+        };
+        Some(From::Join(k, Box::new(l), Box::new(r), on))
+    } else {
+        Some(From::Table(num_after("t", w)?))
+    }
+}
+
+fn p_where(t: &mut Toks) -> Option<Option<E>> {
+    match t.next()? {
+        "-" => Some(None),
+        "w" => Some(Some(p_expr(t)?)),
+        _ => None,
+    }
+}
+
+fn p_opt_nat(pre: &str, t: &mut Toks) -> Option<Option<u64>> {
+    let w = t.next()?;
+    if w.strip_prefix(pre) == Some("-") {
+        return Some(None);
+    }
+    Some(Some(num_after(pre, w)? as u64))
+}
+
+fn p_stmt(db: &[Table], ws: &[&str]) -> Option<Stmt> {
+    let mut t = Toks { ws: ws.to_vec(), pos: 0 };
+    let s = match t.next()? {
+        "sel" => {
+            let distinct = match t.next()? {
+                "all" => false,
+                "distinct" => true,
+                _ => return None,
+            };
+            let from = p_from(&mut t)?;
+            let where_ = p_where(&mut t)?;
+            let ng = num_after("g", t.next()?)?;
+            let mut group_by = Vec::new();
+            for _ in 0..ng {
+                group_by.push(p_expr(&mut t)?);
+            }
+            let na = num_after("a", t.next()?)?;
+            let mut aggs = Vec::new();
+            for _ in 0..na {
+                let f = t.next()?;
+                let f = ["cnt*", "cnt", "sum", "avg", "min", "max"].iter().find(|x| **x == f)?;
+                let arg = if *f == "cnt*" { None } else { Some(p_expr(&mut t)?) };
+                aggs.push(Agg { f, arg });
+            }
+            let p = t.next()?;
+            let items = if p == "star" {
+                None
+            } else {
+                let np = num_after("p", p)?;
+                let mut es = Vec::new();
+                for _ in 0..np {
+                    es.push(p_expr(&mut t)?);
+                }
+                Some(es)
+            };
+            let no = num_after("o", t.next()?)?;
+            let mut order_by = Vec::new();
+            for _ in 0..no {
+                let w = t.next()?;
+                if let Some(k) = num_after("a", w) {
+                    order_by.push((k, true));
+                } else {
+                    order_by.push((num_after("d", w)?, false));
+                }
+            }
+            let limit = p_opt_nat("lim", &mut t)?;
+            let offset = p_opt_nat("off", &mut t)?;
+            Stmt::Select(Select { distinct, from, where_, group_by, aggs, items, order_by, limit, offset })
+        }
+        "ins" => {
+            let tb = num_after("t", t.next()?)?;
+            let n = num_after("r", t.next()?)?;
+            let ncols = db.get(tb).map(|t| t.tys.len()).unwrap_or(0);
+            let mut rows = Vec::new();
+            for _ in 0..n {
+                let mut r = Vec::new();
+                for _ in 0..ncols {
+                    r.push(p_expr(&mut t)?);
+                }
+                rows.push(r);
+            }
+            Stmt::Insert(tb, rows)
+        }
+        "upd" => {
+            let tb = num_after("t", t.next()?)?;
+            let m = num_after("s", t.next()?)?;
+            let mut sets = Vec::new();
+            for _ in 0..m {
+                let c = num_after("c", t.next()?)?;
+                sets.push((c, p_expr(&mut t)?));
+            }
+            Stmt::Update(tb, sets, p_where(&mut t)?)
+        }
+        "del" => {
+            let tb = num_after("t", t.next()?)?;
+            Stmt::Delete(tb, p_where(&mut t)?)
+        }
+        _ => return None,
+    };
+    if t.done() { Some(s) } else { None }
+}
+
+pub fn parse_case(line: &str) -> Option<(Vec<Table>, Vec<Stmt>)> {
+    let ws: Vec<&str> = line.split_whitespace().collect();
+    if ws.len() < 3 || ws[0] != "sql" || ws[2] != ";" {
+        return None;
+    }
+    let db = parse_db(ws[1])?;
+    let mut stmts = Vec::new();
+    for part in ws[3..].split(|w| *w == ";") {
+        stmts.push(p_stmt(&db, part)?);
+    }
+    Some((db, stmts))
+}
+
+// ------------------------------------------------------------------------------------------------ SQL text
+
+/// Precedence levels of the documented grammar:
+/// OR(1) < AND(2) < NOT(3) < comparison / LIKE / IN / BETWEEN / IS (4) < + - (5) < * / % (6) < unary(7) < atom(8)
+fn level(e: &E) -> u8 {
+    match e {
+        E::Or(..) => 1,
+        E::And(..) => 2,
+        E::Not(..) => 3,
+        E::Cmp(..) | E::Like(..) | E::IsNull(..) | E::Between(..) | E::InList(..) => 4,
+        E::Arith(op, ..) => {
+            if *op == "add" || *op == "sub" {
+                5
+            } else {
+                6
+            }
+        }
+        E::Neg(..) | E::Pos(..) => 7,
+        // a negative literal is written with a leading minus sign: it is a unary expression for the printer
+        E::Lit(Val::Int(i)) if *i < 0 => 7,
+        E::Lit(..) | E::Col(..) => 8,
+    }
+}
+
+fn sql_lit(v: &Val) -> String {
+    match v {
+        Val::Null => "NULL".into(),
+        Val::Int(i) => i.to_string(),
+        Val::Bool(b) => if *b { "TRUE".into() } else { "FALSE".into() },
+        Val::Text(s) => format!("'{}'", String::from_utf8_lossy(s).replace('\'', "''")),
+        Val::F64(b) => format!("{:e}", f64::from_bits(*b)),
+    }
+}
+
+/// minimal parentheses: an operand is parenthesised only if its level is below what the position requires
+pub fn sql_expr(e: &E, min: u8, col: &dyn Fn(usize) -> String) -> String {
+    let s = match e {
+        E::Lit(v) => sql_lit(v),
+        E::Col(i) => col(*i),
+        E::Or(a, b) => format!("{} OR {}", sql_expr(a, 1, col), sql_expr(b, 2, col)),
+        E::And(a, b) => format!("{} AND {}", sql_expr(a, 2, col), sql_expr(b, 3, col)),
+        E::Not(a) => format!("NOT {}", sql_expr(a, 3, col)),
+        E::Cmp(op, a, b) => {
+            let o = match *op {
+                "eq" => "=",
+                "ne" => "<>",
+                "lt" => "<",
+                "le" => "<=",
+                "gt" => ">",
+                _ => ">=",
+            };
+            format!("{} {} {}", sql_expr(a, 5, col), o, sql_expr(b, 5, col))
+        }
+        E::Like(neg, a, b) => {
+            format!("{} {}LIKE {}", sql_expr(a, 5, col), if *neg { "NOT " } else { "" }, sql_expr(b, 5, col))
+        }
+        E::IsNull(neg, a) => format!("{} IS {}NULL", sql_expr(a, 5, col), if *neg { "NOT " } else { "" }),
+        E::Between(neg, a, lo, hi) => format!(
+            "{} {}BETWEEN {} AND {}",
+            sql_expr(a, 5, col),
+            if *neg { "NOT " } else { "" },
+            sql_expr(lo, 5, col),
+            sql_expr(hi, 5, col)
+        ),
+        E::InList(neg, a, xs) => format!(
+            "{} {}IN ({})",
+            sql_expr(a, 5, col),
+            if *neg { "NOT " } else { "" },
+            xs.iter().map(|x| sql_expr(x, 1, col)).collect::<Vec<_>>().join(", ")
+        ),
+        E::Arith(op, a, b) => {
+            let (o, l) = match *op {
+                "add" => ("+", 5),
+                "sub" => ("-", 5),
+                "mul" => ("*", 6),
+                "div" => ("/", 6),
+                _ => ("%", 6),
+            };
+            format!("{} {} {}", sql_expr(a, l, col), o, sql_expr(b, l + 1, col))
+        }
+        // `- -x` needs the blank: `--` starts a comment
+        E::Neg(a) => format!("- {}", sql_expr(a, 7, col)),
+        E::Pos(a) => format!("+ {}", sql_expr(a, 7, col)),
+    };
+    if level(e) < min { format!("({})", s) } else { s }
+}
+
+fn sql_ty(t: Ty) -> &'static str {
+    match t {
+        Ty::Int => "INT",
+        Ty::BigInt => "BIGINT",
+        Ty::Bool => "BOOLEAN",
+        Ty::Text => "TEXT",
+    }
+}
+
+/// leaves of a FROM tree, left to right: (table, first column index in the joined row)
+fn leaves(f: &From, db: &[Table], out: &mut Vec<(usize, usize)>, width: &mut usize) {
+    match f {
+        From::Table(t) => {
+            out.push((*t, *width));
+            *width += db.get(*t).map(|t| t.tys.len()).unwrap_or(0);
+        }
+        From::Join(_, l, r, _) => {
+            leaves(l, db, out, width);
+            leaves(r, db, out, width);
+        }
+    }
+}
+
+fn from_tys(f: &From, db: &[Table]) -> Vec<Ty> {
+    let mut ls = Vec::new();
+    let mut w = 0;
+    leaves(f, db, &mut ls, &mut w);
+    ls.iter().flat_map(|(t, _)| db.get(*t).map(|t| t.tys.clone()).unwrap_or_default()).collect()
+}
+
+fn sql_from(f: &From, next: &mut usize, col: &dyn Fn(usize) -> String) -> String {
+    match f {
+        From::Table(t) => {
+            let s = format!("t{} AS r{}", t, *next);
+            *next += 1;
+            s
+        }
+        From::Join(k, l, r, on) => {
+            let ls = sql_from(l, next, col);
+            // a join on the right-hand side would need parentheses the grammar does not have: the generator only
+            // builds left-deep trees; a right-nested tree is printed flat (and then means something else)
+            let rs = sql_from(r, next, col);
+            let kw = match *k {
+                "inner" => "INNER JOIN",
+                "left" => "LEFT JOIN",
+                "right" => "RIGHT JOIN",
+                "full" => "FULL JOIN",
+                _ => "CROSS JOIN",
+            };
+            match on {
+                Some(e) => format!("{} {} {} ON {}", ls, kw, rs, sql_expr(e, 1, col)),
+                None => format!("{} {} {}", ls, kw, rs),
+            }
+        }
+    }
+}
+
+pub fn sql_stmt(s: &Stmt, db: &[Table]) -> String {
+    match s {
+        Stmt::Select(q) => {
+            let mut ls = Vec::new();
+            let mut w = 0;
+            leaves(&q.from, db, &mut ls, &mut w);
+            let ls2 = ls.clone();
+            let col = move |i: usize| -> String {
+                for (k, (_, start)) in ls2.iter().enumerate().rev() {
+                    if i >= *start {
+                        return format!("r{}.c{}", k, i - start);
+                    }
+                }
+                format!("r0.c{}", i)
+            };
+            let mut out_exprs: Vec<String> = Vec::new();
+            let items: String = if !q.aggs.is_empty() {
+                let mut parts: Vec<String> = q.group_by.iter().map(|e| sql_expr(e, 1, &col)).collect();
+                for a in &q.aggs {
+                    parts.push(match (a.f, &a.arg) {
+                        ("cnt*", _) | (_, None) => "COUNT(*)".to_string(),
+                        ("cnt", Some(e)) => format!("COUNT({})", sql_expr(e, 1, &col)),
+                        ("sum", Some(e)) => format!("SUM({})", sql_expr(e, 1, &col)),
+                        ("avg", Some(e)) => format!("AVG({})", sql_expr(e, 1, &col)),
+                        ("min", Some(e)) => format!("MIN({})", sql_expr(e, 1, &col)),
+                        (_, Some(e)) => format!("MAX({})", sql_expr(e, 1, &col)),
+                    });
+                }
+                out_exprs = parts.clone();
+                parts.join(", ")
+            } else {
+                match &q.items {
+                    None => {
+                        out_exprs = (0..w).map(&col).collect();
+                        "*".to_string()
+                    }
+                    Some(es) => {
+                        out_exprs = es.iter().map(|e| sql_expr(e, 1, &col)).collect();
+                        out_exprs.join(", ")
+                    }
+                }
+            };
+            let mut next = 0;
+            let mut sql = format!(
+                "SELECT {}{} FROM {}",
+                if q.distinct { "DISTINCT " } else { "" },
+                items,
+                sql_from(&q.from, &mut next, &col)
+            );
+            if let Some(wh) = &q.where_ {
+                sql += &format!(" WHERE {}", sql_expr(wh, 1, &col));
+            }
+            if !q.group_by.is_empty() {
+                sql += &format!(
+                    " GROUP BY {}",
+                    q.group_by.iter().map(|e| sql_expr(e, 1, &col)).collect::<Vec<_>>().join(", ")
+                );
+            }
+            if !q.order_by.is_empty() {
+                let parts: Vec<String> = q
+                    .order_by
+                    .iter()
+                    .map(|(p, asc)| {
+                        format!(
+                            "{}{}",
+                            out_exprs.get(*p).cloned().unwrap_or_else(|| "NULL".into()),
+                            if *asc { "" } else { " DESC" }
+                        )
+                    })
+                    .collect();
+                sql += &format!(" ORDER BY {}", parts.join(", "));
+            }
+            if let Some(l) = q.limit {
+                sql += &format!(" LIMIT {}", l);
+            }
+            if let Some(o) = q.offset {
+                sql += &format!(" OFFSET {}", o);
+            }
+            sql
+        }
+        Stmt::Insert(t, rows) => {
+            let col = |i: usize| format!("c{}", i);
+            let rs: Vec<String> = rows
+                .iter()
+                .map(|r| format!("({})", r.iter().map(|e| sql_expr(e, 1, &col)).collect::<Vec<_>>().join(", ")))
+                .collect();
+            format!("INSERT INTO t{} VALUES {}", t, rs.join(", "))
+        }
+        Stmt::Update(t, sets, w) => {
+            let col = |i: usize| format!("c{}", i);
+            let ss: Vec<String> = sets.iter().map(|(c, e)| format!("c{} = {}", c, sql_expr(e, 1, &col))).collect();
+            let mut sql = format!("UPDATE t{} SET {}", t, ss.join(", "));
+            if let Some(w) = w {
+                sql += &format!(" WHERE {}", sql_expr(w, 1, &col));
+            }
+            sql
+        }
+        Stmt::Delete(t, w) => {
+            let col = |i: usize| format!("c{}", i);
+            let mut sql = format!("DELETE FROM t{}", t);
+            if let Some(w) = w {
+                sql += &format!(" WHERE {}", sql_expr(w, 1, &col));
+            }
+            sql
+        }
+    }
+}
+
+// ------------------------------------------------------------------------------------------------ running
+
+/// Error classes. The public API hands errors out as text (`TaskError::TaskFailed(String)`), so the class is
+/// read from the prefixes the error enums' `Display` implementations produce — never from the detail text.
+fn err_class(msg: &str) -> &'static str {
+    if msg.contains("Task channel closed") {
+        "panic"
+    } else if msg.contains("preparation error parse error") {
+        "parse"
+    } else if msg.contains("preparation error binder error") {
+        "bind"
+    } else if msg.contains("division by zero") {
+        "divzero"
+    } else if msg.contains("integer overflow") {
+        "overflow"
+    } else if msg.contains("column index out of bounds") {
+        "eval"
+    } else if msg.contains("runtime error: type error") || msg.contains("Type error:") {
+        "type"
+    } else if msg.contains("constraint validation error") {
+        "constraint"
+    } else {
+        "other"
+    }
+}
+
+fn canon_val(v: &DataType) -> Val {
+    match v {
+        DataType::Null => Val::Null,
+        DataType::Bool(b) => Val::Bool(b.0),
+        DataType::Int(i) => Val::Int(i.0 as i128),
+        DataType::BigInt(i) => Val::Int(i.0 as i128),
+        DataType::UInt(i) => Val::Int(i.0 as i128),
+        DataType::BigUInt(i) => Val::Int(i.0 as i128),
+        DataType::Float(f) => canon_f64(f.0 as f64),
+        DataType::Double(f) => canon_f64(f.0),
+        DataType::Blob(b) => Val::Text(b.data().map(|d| d.to_vec()).unwrap_or_default()),
+    }
+}
+
+/// a double holding an integer below 2^63 in magnitude is printed as that integer (SUM returns DOUBLE)
+fn canon_f64(f: f64) -> Val {
+    if f.fract() == 0.0 && f.abs() < 9.2e18 { Val::Int(f as i128) } else { Val::F64(f.to_bits()) }
+}
+
+fn rank(v: &Val) -> u8 {
+    match v {
+        Val::Bool(_) => 0,
+        Val::Int(_) | Val::F64(_) => 1,
+        Val::Text(_) => 2,
+        Val::Null => 3,
+    }
+}
+
+/// the spec comparator of ORDER BY keys: NULL is the largest value; DESC reverses
+fn cmp_key(asc: bool, a: &Val, b: &Val) -> std::cmp::Ordering {
+    use std::cmp::Ordering::*;
+    let o = match (a, b) {
+        (Val::Null, Val::Null) => Equal,
+        (Val::Null, _) => Greater,
+        (_, Val::Null) => Less,
+        (Val::Int(x), Val::Int(y)) => x.cmp(y),
+        (Val::Bool(x), Val::Bool(y)) => x.cmp(y),
+        (Val::Text(x), Val::Text(y)) => x.cmp(y),
+        (x, y) => rank(x).cmp(&rank(y)),
+    };
+    if asc { o } else { o.reverse() }
+}
+
+fn is_sorted(rows: &[Vec<Val>], order: &[(usize, bool)]) -> bool {
+    rows.windows(2).all(|w| {
+        for (p, asc) in order {
+            let (a, b) = (w[0].get(*p).unwrap_or(&Val::Null), w[1].get(*p).unwrap_or(&Val::Null));
+            match cmp_key(*asc, a, b) {
+                std::cmp::Ordering::Less => return true,
+                std::cmp::Ordering::Greater => return false,
+                _ => {}
+            }
+        }
+        true
+    })
+}
+
+fn show_rows(rows: &[Vec<Val>], canonical: bool) -> String {
+    let mut ss: Vec<String> = rows.iter().map(|r| r.iter().map(show_val).collect::<Vec<_>>().join(",")).collect();
+    if canonical {
+        ss.sort();
+    }
+    ss.join("|")
+}
+
+static SEQ: std::sync::atomic::AtomicU64 = std::sync::atomic::AtomicU64::new(0);
+
+/// Panics of the database's worker threads reach the caller only as "Task channel closed"; their location is
+/// recorded here (diagnostics after ` ## `), chained in front of the harness' own hook.
+static WORKER_PANIC: std::sync::Mutex<Option<String>> = std::sync::Mutex::new(None);
+static HOOK: std::sync::Once = std::sync::Once::new();
+
+pub fn install_worker_panic_recorder() {
+    HOOK.call_once(|| {
+        let prev = std::panic::take_hook();
+        std::panic::set_hook(Box::new(move |info| {
+            let loc = info
+                .location()
+                .map(|l| {
+                    let f = l.file();
+                    let f = f.rsplit_once("/src/").map(|x| x.1).unwrap_or(f);
+                    format!("{}:{}", f, l.line())
+                })
+                .unwrap_or_else(|| "?".into());
+            if let Ok(mut g) = WORKER_PANIC.lock() {
+                *g = Some(loc);
+            }
+            prev(info);
+        }));
+    });
+}
+
+pub fn take_worker_panic() -> Option<String> {
+    WORKER_PANIC.lock().ok().and_then(|mut g| g.take())
+}
+
+pub struct TempDb {
+    pub db: Option<Database>,
+    dir: std::path::PathBuf,
+}
+
+impl TempDb {
+    pub fn new() -> TempDb {
+        let n = SEQ.fetch_add(1, std::sync::atomic::Ordering::Relaxed);
+        let dir = std::env::temp_dir().join(format!("axh-sql-{}-{}", std::process::id(), n));
+        let _ = std::fs::remove_dir_all(&dir);
+        std::fs::create_dir_all(&dir).unwrap();
+        let db = Database::create(dir.join("db"), DBConfig::default()).expect("create database");
+        TempDb { db: Some(db), dir }
+    }
+}
+
+impl Drop for TempDb {
+    fn drop(&mut self) {
+        self.db.take();
+        let _ = std::fs::remove_dir_all(&self.dir);
+    }
+}
+
+pub fn load(db: &Database, tables: &[Table]) -> Result<(), String> {
+    for (k, t) in tables.iter().enumerate() {
+        let cols: Vec<String> = t.tys.iter().enumerate().map(|(i, ty)| format!("c{} {}", i, sql_ty(*ty))).collect();
+        db.execute(&format!("CREATE TABLE t{} ({})", k, cols.join(", "))).map_err(|e| format!("create: {}", e))?;
+        for chunk in t.rows.chunks(20) {
+            let rs: Vec<String> = chunk
+                .iter()
+                .map(|r| format!("({})", r.iter().map(sql_lit).collect::<Vec<_>>().join(", ")))
+                .collect();
+            db.execute(&format!("INSERT INTO t{} VALUES {}", k, rs.join(", "))).map_err(|e| format!("load: {}", e))?;
+        }
+    }
+    Ok(())
+}
+
+pub fn run_stmt(db: &Database, tables: &[Table], s: &Stmt) -> String {
+    let sql = sql_stmt(s, tables);
+    match db.execute(&sql) {
+        Err(e) => format!("E{}", err_class(&e.to_string())),
+        Ok(QueryResult::RowsAffected(n)) => format!("A{}", n),
+        Ok(QueryResult::Ddl(_)) => "Eother".into(),
+        Ok(QueryResult::Rows(rows)) => {
+            let rs: Vec<Vec<Val>> = rows.iterrows().map(|r| r.iter().map(canon_val).collect()).collect();
+            match s {
+                Stmt::Select(q) if q.limit.is_some() || q.offset.is_some() => format!("Rlist:{}", show_rows(&rs, false)),
+                Stmt::Select(q) if !q.order_by.is_empty() => {
+                    if is_sorted(&rs, &q.order_by) {
+                        format!("Rord:{}", show_rows(&rs, true))
+                    } else {
+                        format!("Runsorted:{}", show_rows(&rs, false))
+                    }
+                }
+                _ => format!("Rset:{}", show_rows(&rs, true)),
+            }
+        }
+    }
+}
+
+fn raw(sqls: &str) -> String {
+    let t = TempDb::new();
+    let db = t.db.as_ref().unwrap();
+    let mut out = Vec::new();
+    for s in sqls.split(';') {
+        let s = s.trim();
+        if s.is_empty() {
+            continue;
+        }
+        if let Some(q) = s.strip_prefix("EXPLAIN ") {
+            out.push(format!("PLAN {:?}", db.explain(q)));
+            continue;
+        }
+        match db.execute(s) {
+            Err(e) => out.push(format!("ERR[{}] {}", err_class(&e.to_string()), e)),
+            Ok(QueryResult::Rows(rows)) => {
+                let rs: Vec<Vec<Val>> = rows.iterrows().map(|r| r.iter().map(canon_val).collect()).collect();
+                out.push(format!("ROWS[{}] {}", rs.len(), show_rows(&rs, false)));
+            }
+            Ok(QueryResult::RowsAffected(n)) => out.push(format!("AFFECTED {}", n)),
+            Ok(QueryResult::Ddl(_)) => out.push("DDL".into()),
+        }
+    }
+    out.join(" || ")
+}
+
+// ------------------------------------------------------------------------------------------------ generation
+
+const I32_MIN: i128 = -2147483648;
+const I32_MAX: i128 = 2147483647;
+const I64_MIN: i128 = -9223372036854775808;
+const I64_MAX: i128 = 9223372036854775807;
+
+struct Gen<'a> {
+    rng: &'a mut Rng,
+    tags: BTreeSet<String>,
+    /// When set, generated integer expressions cannot raise an error (no division by a column, products only of
+    /// leaves, no arithmetic on boundary values).  Which of several failing sub-expressions is reported, and
+    /// whether a row that is joined away or cut off by LIMIT is evaluated at all, depends on the plan and on
+    /// pipelining (SQL leaves the evaluation order open).  So an error outcome is comparable only if at most one
+    /// clause of a single-table statement can fail: every other clause is generated in safe mode.
+    safe_arith: bool,
+}
+
+#[derive(Clone, Copy, PartialEq)]
+enum Profile {
+    Small,
+    Boundary,
+    Sparse,
+    Dups,
+    Text,
+    Nulls,
+}
+
+const WORDS: [&str; 12] = ["", "a", "ab", "abc", "b", "ba", "B", "x", "xy", "a%", "a_c", "zz"];
+const PATTERNS: [&str; 14] = ["%", "a%", "%b", "%b%", "_", "a_", "_b%", "abc", "", "%%", "a_c", "__", "x%y", "%a%b%"];
+
+impl<'a> Gen<'a> {
+    fn tag(&mut self, t: &str) {
+        self.tags.insert(t.to_string());
+    }
+
+    fn int_val(&mut self, ty: Ty, p: Profile) -> i128 {
+        let r = &mut *self.rng;
+        match p {
+            Profile::Boundary => {
+                if ty == Ty::Int {
+                    *r.pick(&[I32_MIN, I32_MAX, I32_MIN + 1, I32_MAX - 1, 0, -1, 1, 65536, -65536, 46341])
+                } else {
+                    *r.pick(&[
+                        I64_MIN,
+                        I64_MAX,
+                        I32_MIN - 1,
+                        I32_MAX + 1,
+                        1 << 53,
+                        -(1 << 53),
+                        0,
+                        -1,
+                        1,
+                        3037000500,
+                        -3037000500,
+                        1 << 62,
+                    ])
+                }
+            }
+            Profile::Dups => r.range(0, 2) as i128,
+            _ => {
+                if r.chance(1, 8) {
+                    r.range(-1000, 1000) as i128
+                } else {
+                    r.range(-4, 9) as i128
+                }
+            }
+        }
+    }
+
+    fn val(&mut self, ty: Ty, p: Profile, nullable: bool) -> Val {
+        let null_num = match p {
+            Profile::Nulls => 5,
+            Profile::Sparse => 3,
+            _ => 2,
+        };
+        if nullable && self.rng.chance(null_num, 10) {
+            return Val::Null;
+        }
+        match ty {
+            Ty::Int | Ty::BigInt => Val::Int(self.int_val(ty, p)),
+            Ty::Bool => Val::Bool(self.rng.chance(1, 2)),
+            Ty::Text => {
+                let n = if p == Profile::Dups { 3 } else { WORDS.len() };
+                Val::Text(WORDS[self.rng.below(n as u64) as usize].as_bytes().to_vec())
+            }
+        }
+    }
+
+    fn table(&mut self, p: Profile, first: bool) -> Table {
+        let ncols = self.rng.range(2, 5) as usize;
+        let mut tys = vec![Ty::Int];
+        for _ in 1..ncols {
+            let t = match p {
+                Profile::Text => *self.rng.pick(&[Ty::Text, Ty::Text, Ty::Int]),
+                Profile::Boundary => *self.rng.pick(&[Ty::Int, Ty::BigInt, Ty::BigInt]),
+                _ => *self.rng.pick(&[Ty::Int, Ty::Int, Ty::BigInt, Ty::Text, Ty::Bool]),
+            };
+            tys.push(t);
+        }
+        let nrows = match p {
+            Profile::Sparse => {
+                if first {
+                    0
+                } else {
+                    self.rng.range(0, 2) as usize
+                }
+            }
+            Profile::Dups => self.rng.range(5, 10) as usize,
+            _ => self.rng.range(3, 8) as usize,
+        };
+        let mut rows = Vec::new();
+        for _ in 0..nrows {
+            let row: Vec<Val> = (0..ncols).map(|c| self.val(tys[c], p, c > 0 || p == Profile::Nulls)).collect();
+            rows.push(row);
+        }
+        Table { tys, rows }
+    }
+
+    fn lit(&mut self, ty: Ty, p: Profile) -> E {
+        if self.rng.chance(1, 12) {
+            self.tag("lit.null");
+            return E::Lit(Val::Null);
+        }
+        E::Lit(self.val(ty, p, false))
+    }
+
+    fn cols_of(&self, tys: &[Ty], want: &[Ty]) -> Vec<usize> {
+        tys.iter().enumerate().filter(|(_, t)| want.contains(t)).map(|(i, _)| i).collect()
+    }
+
+    fn int_expr(&mut self, tys: &[Ty], p: Profile, depth: u32) -> E {
+        let cols = self.cols_of(tys, &[Ty::Int, Ty::BigInt]);
+        let leaf = depth == 0 || self.rng.chance(1, 2) || (self.safe_arith && p == Profile::Boundary);
+        if leaf {
+            if !cols.is_empty() && self.rng.chance(2, 3) {
+                return E::Col(*self.rng.pick(&cols));
+            }
+            let ty = *self.rng.pick(&[Ty::Int, Ty::BigInt]);
+            return self.lit(ty, p);
+        }
+        match self.rng.below(8) {
+            0 => {
+                self.tag("op.neg");
+                E::Neg(Box::new(self.int_expr(tys, p, depth - 1)))
+            }
+            1 => {
+                self.tag("op.pos");
+                E::Pos(Box::new(self.int_expr(tys, p, depth - 1)))
+            }
+            k => {
+                let op = ["add", "sub", "mul", "div", "mod", "add"][(k - 2) as usize];
+                self.tag(&format!("op.{}", op));
+                let sub = if self.safe_arith && op == "mul" { 0 } else { depth - 1 };
+                let a = self.int_expr(tys, p, sub);
+                let b = if self.safe_arith && (op == "div" || op == "mod") {
+                    E::Lit(Val::Int(*self.rng.pick(&[1, 2, 3, -1, -2, 7])))
+                } else {
+                    self.int_expr(tys, p, sub)
+                };
+                if !self.safe_arith {
+                    self.tag("arith.may-fail");
+                }
+                E::Arith(op, Box::new(a), Box::new(b))
+            }
+        }
+    }
+
+    fn text_expr(&mut self, tys: &[Ty], p: Profile) -> E {
+        let cols = self.cols_of(tys, &[Ty::Text]);
+        if !cols.is_empty() && self.rng.chance(2, 3) {
+            E::Col(*self.rng.pick(&cols))
+        } else {
+            self.lit(Ty::Text, p)
+        }
+    }
+
+    /// a scalar of a random comparable type with a second scalar of the same type
+    fn same_type_pair(&mut self, tys: &[Ty], p: Profile, depth: u32) -> (E, E, &'static str) {
+        let has_text = !self.cols_of(tys, &[Ty::Text]).is_empty();
+        let has_bool = !self.cols_of(tys, &[Ty::Bool]).is_empty();
+        let k = self.rng.below(10);
+        if has_text && k < 3 {
+            (self.text_expr(tys, p), self.text_expr(tys, p), "text")
+        } else if has_bool && k == 3 {
+            let cols = self.cols_of(tys, &[Ty::Bool]);
+            let a = E::Col(*self.rng.pick(&cols));
+            let b = if self.rng.chance(1, 2) { E::Col(*self.rng.pick(&cols)) } else { self.lit(Ty::Bool, p) };
+            (a, b, "bool")
+        } else {
+            (self.int_expr(tys, p, depth), self.int_expr(tys, p, depth), "int")
+        }
+    }
+
+    fn bool_expr(&mut self, tys: &[Ty], p: Profile, depth: u32) -> E {
+        let k = if depth == 0 { self.rng.below(7) + 3 } else { self.rng.below(10) };
+        match k {
+            0 => {
+                self.tag("op.and");
+                let a = self.bool_expr(tys, p, depth - 1);
+                let b = self.bool_expr(tys, p, depth - 1);
+                E::And(Box::new(a), Box::new(b))
+            }
+            1 => {
+                self.tag("op.or");
+                let a = self.bool_expr(tys, p, depth - 1);
+                let b = self.bool_expr(tys, p, depth - 1);
+                E::Or(Box::new(a), Box::new(b))
+            }
+            2 => {
+                self.tag("op.not");
+                E::Not(Box::new(self.bool_expr(tys, p, depth - 1)))
+            }
+            3 | 4 => {
+                let (a, b, t) = self.same_type_pair(tys, p, depth.min(2));
+                let op = *self.rng.pick(&CMP_OPS);
+                self.tag(&format!("cmp.{}.{}", op, t));
+                E::Cmp(op, Box::new(a), Box::new(b))
+            }
+            5 => {
+                let neg = self.rng.chance(1, 2);
+                self.tag(if neg { "op.notnull" } else { "op.isnull" });
+                let e = match self.rng.below(3) {
+                    0 => self.text_expr(tys, p),
+                    _ => self.int_expr(tys, p, depth.min(1)),
+                };
+                E::IsNull(neg, Box::new(e))
+            }
+            6 => {
+                let neg = self.rng.chance(1, 2);
+                let (a, lo, t) = self.same_type_pair(tys, p, depth.min(1));
+                let hi = match t {
+                    "text" => self.text_expr(tys, p),
+                    "bool" => self.lit(Ty::Bool, p),
+                    _ => self.int_expr(tys, p, depth.min(1)),
+                };
+                self.tag(&format!("{}.{}", if neg { "op.nbtw" } else { "op.btw" }, t));
+                E::Between(neg, Box::new(a), Box::new(lo), Box::new(hi))
+            }
+            7 => {
+                let neg = self.rng.chance(1, 2);
+                let (a, x, t) = self.same_type_pair(tys, p, depth.min(1));
+                let mut xs = vec![x];
+                for _ in 0..self.rng.below(3) {
+                    xs.push(match t {
+                        "text" => self.text_expr(tys, p),
+                        "bool" => self.lit(Ty::Bool, p),
+                        _ => self.int_expr(tys, p, 0),
+                    });
+                }
+                self.tag(&format!("{}.{}", if neg { "op.nin" } else { "op.in" }, t));
+                E::InList(neg, Box::new(a), xs)
+            }
+            8 => {
+                let cols = self.cols_of(tys, &[Ty::Text]);
+                if cols.is_empty() {
+                    return self.bool_expr(tys, p, 0);
+                }
+                let neg = self.rng.chance(1, 2);
+                self.tag(if neg { "op.nlike" } else { "op.like" });
+                let pat = if self.rng.chance(1, 15) {
+                    E::Lit(Val::Null)
+                } else {
+                    E::Lit(Val::Text(self.rng.pick(&PATTERNS).as_bytes().to_vec()))
+                };
+                E::Like(neg, Box::new(E::Col(*self.rng.pick(&cols))), Box::new(pat))
+            }
+            _ => {
+                let cols = self.cols_of(tys, &[Ty::Bool]);
+                if cols.is_empty() {
+                    let (a, b, t) = self.same_type_pair(tys, p, 1);
+                    let op = *self.rng.pick(&CMP_OPS);
+                    self.tag(&format!("cmp.{}.{}", op, t));
+                    return E::Cmp(op, Box::new(a), Box::new(b));
+                }
+                self.tag("bool.col");
+                E::Col(*self.rng.pick(&cols))
+            }
+        }
+    }
+
+    /// left-deep join tree over 1–3 table occurrences
+    fn from(&mut self, db: &[Table], p: Profile, max_tables: usize) -> From {
+        let n = 1 + self.rng.below(max_tables as u64) as usize;
+        self.safe_arith = true;
+        let mut f = From::Table(self.rng.below(db.len() as u64) as usize);
+        for _ in 1..n {
+            let t = self.rng.below(db.len() as u64) as usize;
+            let kind = *self.rng.pick(&["inner", "inner", "left", "right", "full", "cross"]);
+            self.tag(&format!("join.{}", kind));
+            let ltys = from_tys(&f, db);
+            let joined = From::Join(kind, Box::new(f.clone()), Box::new(From::Table(t)), None);
+            let tys = from_tys(&joined, db);
+            let on = if kind == "cross" {
+                None
+            } else {
+                let lw = ltys.len();
+                let lints: Vec<usize> = (0..lw).filter(|i| matches!(tys[*i], Ty::Int | Ty::BigInt)).collect();
+                let rints: Vec<usize> =
+                    (lw..tys.len()).filter(|i| matches!(tys[*i], Ty::Int | Ty::BigInt)).collect();
+                let k = self.rng.below(10);
+                if k < 5 && !lints.is_empty() && !rints.is_empty() {
+                    // equi-join, written either way round, possibly with a second key
+                    let mk = |g: &mut Self| {
+                        let (l, r) = (*g.rng.pick(&lints), *g.rng.pick(&rints));
+                        if g.rng.chance(1, 3) {
+                            g.tag("join.equi.reversed");
+                            E::Cmp("eq", Box::new(E::Col(r)), Box::new(E::Col(l)))
+                        } else {
+                            E::Cmp("eq", Box::new(E::Col(l)), Box::new(E::Col(r)))
+                        }
+                    };
+                    self.tag("join.equi");
+                    let c = mk(self);
+                    if self.rng.chance(1, 4) {
+                        self.tag("join.equi.2keys");
+                        let c2 = mk(self);
+                        Some(E::And(Box::new(c), Box::new(c2)))
+                    } else {
+                        Some(c)
+                    }
+                } else {
+                    self.tag("join.theta");
+                    Some(self.bool_expr(&tys, p, 1))
+                }
+            };
+            f = From::Join(kind, Box::new(f), Box::new(From::Table(t)), on);
+        }
+        f
+    }
+
+    fn select(&mut self, db: &[Table], p: Profile) -> Select {
+        let max_tables = if self.rng.chance(1, 3) { 3 } else { 1 };
+        let from = self.from(db, p, max_tables);
+        let multi = matches!(from, From::Join(..));
+        self.tag(if multi { "multi-table" } else { "single-table" });
+        // shape of the rest of the statement, decided first because it determines which clause may fail
+        let kind = self.rng.below(10); // < 3: aggregate query
+        let order_kind = self.rng.below(10); // < 3 partial order, < 6 total order (+ limit), else none
+        let limit_kind = self.rng.below(4);
+        let has_limit = kind >= 3 && (3..6).contains(&order_kind) && limit_kind < 3;
+        // the one clause that may raise an arithmetic error: 0 = none, 1 = WHERE, 2 = output (items / keys), 3 = aggregate arguments
+        let risky = if multi {
+            0
+        } else if has_limit {
+            self.rng.below(2)
+        } else {
+            self.rng.below(4)
+        };
+        let tys = from_tys(&from, db);
+        let depth = self.rng.range(0, 3) as u32;
+        self.safe_arith = risky != 1;
+        let where_ = if self.rng.chance(4, 5) {
+            self.tag("where");
+            Some(self.bool_expr(&tys, p, depth))
+        } else {
+            None
+        };
+        let mut q = Select {
+            distinct: false,
+            from,
+            where_,
+            group_by: vec![],
+            aggs: vec![],
+            items: None,
+            order_by: vec![],
+            limit: None,
+            offset: None,
+        };
+        if kind < 3 {
+            // aggregate query
+            self.tag("agg");
+            self.safe_arith = risky != 2;
+            let nkeys = self.rng.below(3) as usize;
+            for _ in 0..nkeys {
+                let k = match self.rng.below(4) {
+                    0 => self.int_expr(&tys, p, 1),
+                    _ => E::Col(self.rng.below(tys.len() as u64) as usize),
+                };
+                q.group_by.push(k);
+            }
+            self.tag(&format!("groupby.{}", nkeys));
+            self.safe_arith = risky != 3;
+            let small = p != Profile::Boundary;
+            for _ in 0..(1 + self.rng.below(3)) {
+                let f = *self.rng.pick(&["cnt*", "cnt", "sum", "avg", "min", "max"]);
+                let arg = match f {
+                    "cnt*" => None,
+                    "sum" | "avg" => {
+                        if small {
+                            Some(self.int_expr(&tys, p, 1))
+                        } else {
+                            // sums of boundary values are kept to single columns of INT type (no 64-bit overflow)
+                            let cols = self.cols_of(&tys, &[Ty::Int]);
+                            Some(E::Col(*self.rng.pick(&cols)))
+                        }
+                    }
+                    _ => Some(match self.rng.below(3) {
+                        0 => self.int_expr(&tys, p, 1),
+                        _ => E::Col(self.rng.below(tys.len() as u64) as usize),
+                    }),
+                };
+                self.tag(&format!("agg.{}", f));
+                q.aggs.push(Agg { f, arg });
+            }
+            return q;
+        }
+        // projection
+        self.safe_arith = risky != 2;
+        let nout;
+        if self.rng.chance(1, 2) {
+            nout = tys.len();
+        } else {
+            let n = self.rng.range(1, 3) as usize;
+            let mut items = Vec::new();
+            for _ in 0..n {
+                items.push(match self.rng.below(5) {
+                    0 => {
+                        self.tag("project.arith");
+                        self.int_expr(&tys, p, 2)
+                    }
+                    1 => {
+                        self.tag("project.pred");
+                        self.bool_expr(&tys, p, 1)
+                    }
+                    _ => E::Col(self.rng.below(tys.len() as u64) as usize),
+                });
+            }
+            nout = n;
+            q.items = Some(items);
+        }
+        if self.rng.chance(1, 4) {
+            self.tag("distinct");
+            q.distinct = true;
+        }
+        let k = order_kind;
+        if k < 3 {
+            // partial order, no limit: ties are free
+            self.tag("orderby.partial");
+            let n = 1 + self.rng.below(2.min(nout as u64)) as usize;
+            let mut pos: Vec<usize> = (0..nout).collect();
+            self.rng.shuffle(&mut pos);
+            for p in pos.into_iter().take(n) {
+                let asc = self.rng.chance(1, 2);
+                self.tag(if asc { "orderby.asc" } else { "orderby.desc" });
+                q.order_by.push((p, asc));
+            }
+        } else if k < 6 {
+            // total order over all output columns, so that LIMIT / OFFSET have exactly one answer
+            self.tag("orderby.total");
+            let mut pos: Vec<usize> = (0..nout).collect();
+            self.rng.shuffle(&mut pos);
+            for p in pos {
+                let asc = self.rng.chance(1, 2);
+                self.tag(if asc { "orderby.asc" } else { "orderby.desc" });
+                q.order_by.push((p, asc));
+            }
+            match limit_kind {
+                0 => {
+                    self.tag("limit");
+                    q.limit = Some(self.rng.below(5));
+                }
+                1 => {
+                    self.tag("limit+offset");
+                    q.limit = Some(self.rng.below(5));
+                    q.offset = Some(self.rng.below(4));
+                }
+                2 => {
+                    self.tag("offset");
+                    q.offset = Some(self.rng.below(6));
+                }
+                _ => {}
+            }
+        }
+        q
+    }
+
+    fn dml(&mut self, db: &[Table], p: Profile) -> Vec<Stmt> {
+        let t = self.rng.below(db.len() as u64) as usize;
+        let tys = db[t].tys.clone();
+        let depth = self.rng.range(0, 2) as u32;
+        let risky_where = self.rng.chance(1, 2);
+        self.safe_arith = !risky_where;
+        let w = if self.rng.chance(5, 6) { Some(self.bool_expr(&tys, p, depth)) } else { None };
+        let s = match self.rng.below(3) {
+            0 => {
+                self.tag("dml.insert");
+                let n = self.rng.range(1, 3) as usize;
+                let rows: Vec<Vec<E>> = (0..n)
+                    .map(|_| (0..tys.len()).map(|c| E::Lit(self.val(tys[c], p, c > 0))).collect())
+                    .collect();
+                Stmt::Insert(t, rows)
+            }
+            1 => {
+                self.tag("dml.update");
+                self.safe_arith = risky_where;
+                let n = self.rng.range(1, 2) as usize;
+                let mut sets = Vec::new();
+                let mut cols: Vec<usize> = (0..tys.len()).collect();
+                self.rng.shuffle(&mut cols);
+                for c in cols.into_iter().take(n) {
+                    let e = match tys[c] {
+                        Ty::Int | Ty::BigInt => self.int_expr(&tys, p, 1),
+                        Ty::Text => self.text_expr(&tys, p),
+                        Ty::Bool => self.bool_expr(&tys, p, 0),
+                    };
+                    sets.push((c, e));
+                }
+                Stmt::Update(t, sets, w)
+            }
+            _ => {
+                self.tag("dml.delete");
+                Stmt::Delete(t, w)
+            }
+        };
+        let check = Stmt::Select(Select {
+            distinct: false,
+            from: From::Table(t),
+            where_: None,
+            group_by: vec![],
+            aggs: vec![],
+            items: None,
+            order_by: vec![],
+            limit: None,
+            offset: None,
+        });
+        vec![s, check]
+    }
+}
+
+fn expr_cols(e: &E, out: &mut Vec<usize>) {
+    match e {
+        E::Lit(_) => {}
+        E::Col(i) => out.push(*i),
+        E::Not(a) | E::Neg(a) | E::Pos(a) | E::IsNull(_, a) => expr_cols(a, out),
+        E::And(a, b) | E::Or(a, b) | E::Cmp(_, a, b) | E::Arith(_, a, b) | E::Like(_, a, b) => {
+            expr_cols(a, out);
+            expr_cols(b, out)
+        }
+        E::Between(_, a, b, c) => {
+            expr_cols(a, out);
+            expr_cols(b, out);
+            expr_cols(c, out)
+        }
+        E::InList(_, a, xs) => {
+            expr_cols(a, out);
+            for x in xs {
+                expr_cols(x, out)
+            }
+        }
+    }
+}
+
+fn top_op(e: &E) -> &'static str {
+    match e {
+        E::Lit(_) => "lit",
+        E::Col(_) => "col",
+        E::Not(_) => "not",
+        E::Neg(_) | E::Pos(_) | E::Arith(..) => "arith",
+        E::And(..) => "and",
+        E::Or(..) => "or",
+        E::Cmp(..) => "cmp",
+        E::Like(..) => "like",
+        E::IsNull(..) => "isnull",
+        E::Between(..) => "between",
+        E::InList(..) => "in",
+    }
+}
+
+/// statement-level coverage: top operator of the predicate × does it read a column that holds a NULL in this
+/// population (so that the three-valued paths are really taken) × literal NULL
+fn predicate_tags(kind: &str, e: &E, from: &From, db: &[Table], tags: &mut BTreeSet<String>) {
+    let mut ls = Vec::new();
+    let mut w = 0;
+    leaves(from, db, &mut ls, &mut w);
+    let mut cols = Vec::new();
+    expr_cols(e, &mut cols);
+    let mut reads_null = false;
+    for c in cols {
+        for (t, start) in ls.iter().rev() {
+            if c >= *start {
+                if let Some(tb) = db.get(*t) {
+                    if tb.rows.iter().any(|r| r.get(c - start) == Some(&Val::Null)) {
+                        reads_null = true;
+                    }
+                }
+                break;
+            }
+        }
+    }
+    // outer joins produce NULLs of their own
+    let outer = matches!(from, From::Join(k, ..) if *k == "left" || *k == "right" || *k == "full");
+    tags.insert(format!(
+        "{}.top.{}.{}",
+        kind,
+        top_op(e),
+        if reads_null { "null-data" } else if outer && kind == "where" { "outer-join-nulls" } else { "no-null-data" }
+    ));
+}
+
+fn gen_line(rng: &mut Rng, nstmts: usize) -> Case {
+    let mut g = Gen { rng, tags: BTreeSet::new(), safe_arith: false };
+    let (p, pname) = *g.rng.pick(&[
+        (Profile::Small, "small"),
+        (Profile::Small, "small"),
+        (Profile::Boundary, "boundary"),
+        (Profile::Sparse, "sparse"),
+        (Profile::Dups, "dups"),
+        (Profile::Text, "text"),
+        (Profile::Nulls, "nulls"),
+    ]);
+    g.tag(&format!("pop.{}", pname));
+    let ntables = g.rng.range(1, 3) as usize;
+    let db: Vec<Table> = (0..ntables).map(|k| g.table(p, k == 0)).collect();
+    if db.iter().any(|t| t.rows.is_empty()) {
+        g.tag("pop.empty-table");
+    }
+    if db.iter().any(|t| t.rows.iter().any(|r| r.contains(&Val::Null))) {
+        g.tag("pop.has-null");
+    }
+    let mut stmts: Vec<Stmt> = Vec::new();
+    while stmts.len() < nstmts {
+        if g.rng.chance(1, 6) {
+            stmts.extend(g.dml(&db, p));
+        } else {
+            stmts.push(Stmt::Select(g.select(&db, p)));
+        }
+    }
+    for st in &stmts {
+        match st {
+            Stmt::Select(q) => {
+                if let Some(w) = &q.where_ {
+                    predicate_tags("where", w, &q.from, &db, &mut g.tags);
+                }
+                let mut f = &q.from;
+                while let From::Join(_, l, _, on) = f {
+                    if let Some(on) = on {
+                        predicate_tags("on", on, f, &db, &mut g.tags);
+                    }
+                    f = l;
+                }
+            }
+            Stmt::Update(t, _, Some(w)) | Stmt::Delete(t, Some(w)) => {
+                predicate_tags("dmlwhere", w, &From::Table(*t), &db, &mut g.tags);
+            }
+            _ => {}
+        }
+    }
+    let line = format!("sql {} ; {}", show_db(&db), stmts.iter().map(show_stmt).collect::<Vec<_>>().join(" ; "));
+    let mut tags: Vec<String> = g.tags.into_iter().collect();
+    tags.push("nt".into());
+    Case { line, tags }
+}
+
+impl Engine for SqlEngine {
+    fn gen_cases(&self, rng: &mut Rng, tier: Tier) -> Vec<Case> {
+        let (lines, per) = match tier {
+            Tier::Quick => (600, 12),
+            Tier::Thorough => (6000, 15),
+        };
+        (0..lines).map(|_| gen_line(rng, per)).collect()
+    }
+
+    fn exec(&mut self, line: &str) -> String {
+        // debugging aids (not part of the protocol): `raw <sql>; <sql>…` runs SQL text on a scratch database,
+        // `show <case>` prints the SQL text of a case. Only with AXH_SQL_DEBUG set; otherwise such lines are `bad-op`.
+        let debug = std::env::var_os("AXH_SQL_DEBUG").is_some();
+        if let (true, Some(rest)) = (debug, line.strip_prefix("raw ")) {
+            return raw(rest);
+        }
+        if let (true, Some(rest)) = (debug, line.strip_prefix("show ")) {
+            return match parse_case(rest) {
+                None => "bad-op".into(),
+                Some((db, stmts)) => stmts.iter().map(|s| sql_stmt(s, &db)).collect::<Vec<_>>().join(" ; "),
+            };
+        }
+        install_worker_panic_recorder();
+        let Some((tables, stmts)) = parse_case(line) else {
+            return "bad-op".into();
+        };
+        let t = TempDb::new();
+        let db = t.db.as_ref().unwrap();
+        if let Err(e) = load(db, &tables) {
+            return format!("load-failed ## {} {:?}", e, take_worker_panic());
+        }
+        let mut panics = Vec::new();
+        let mut failed_dml = false;
+        let outs: Vec<String> = stmts
+            .iter()
+            .map(|s| {
+                // what a failed INSERT/UPDATE/DELETE leaves behind is C03's business: stop comparing
+                if failed_dml {
+                    return "-".to_string();
+                }
+                let o = run_stmt(db, &tables, s);
+                if !matches!(s, Stmt::Select(_)) && o.starts_with('E') {
+                    failed_dml = true;
+                }
+                if let Some(p) = take_worker_panic() {
+                    panics.push(p);
+                }
+                o
+            })
+            .collect();
+        if panics.is_empty() { outs.join(" ; ") } else { format!("{} ## worker-panic@{}", outs.join(" ; "), panics.join(",")) }
+    }
+
+    fn timeout_ms(&self) -> u64 {
+        60_000
     }
 }
 
